@@ -13,9 +13,14 @@ Leader path, ops lrange / lrr / lrack: <partitions> is the CLUSTER held by a fak
   ConsumerGroup.assignTopicPartitions (kafka.VerifAssignTopicPartitions) asks it for extractTopics(members).
   The broker fails a request naming a topic it has no partition of (UnknownTopicOrPartition); the leader
   then asks topic by topic (when > 1 topics).  Every request is journalled.
-  go result  = "<canonical as range/rr (no perm) | rack runs joined by '/'> req=<r1>;<r2>;..."   r = hex,hex | -
-               (ERR:<msg> / PANIC instead of <canonical>; req=none when no request was made)
-  model      = "<as range/rr/rack on leader_partitions> req=<leader_requests>"
+  Each leader case runs several rounds of kafka.VerifLeaderJoinSync (real joinGroup as leader -> assignTopicPartitions
+  -> syncGroup / makeSyncGroupRequestV0); the SyncGroup request the coordinator receives is decoded by hand in the harness.
+  go result  = "<distinct canonical returned assignments joined by '/'> req=<r1>;<r2>;... wire=<distinct canonical
+               decoded SyncGroup requests joined by '/'> wirediff=<rounds with wire != returned>"  r = hex,hex | -
+               + " own=BAD" / " sync=BAD" / " WIREDUPMEMBER" only when wrong
+               (ERR:<msg> / PANIC instead of <canonical>; req=none when no request was made; WIREERR:<why> / NOWIRE as wire)
+  model      = "<as range/rr/rack on leader_partitions> req=<leader_requests>" + for lrange/lrr
+               " wire=<canonical wire_triples (sync_request assignment)>" (lrack: wire checked per topic against the alternatives)
   The predicates judge the output against the CLUSTER, not against what was requested.
 """
 import hashlib, json, os, subprocess
@@ -24,7 +29,7 @@ import checklib as L
 TRUSTED_BASE = [
     "Coq 8.16.1 kernel (coqc; coqchk in the thorough tier); vm_compute used only in non-vacuity Examples; no native_compute",
     "hand-written model coq/Model/GroupBalancers.v of /repo/groupbalancer.go, tied by the differential run of harness/cmd/c14 (real AssignGroups, build tag verif) against the OCaml extraction (ExtrOcamlBasic only: bool/option/unit/list/prod/sumbool mapped; nat, positive, N, Z kept as Coq datatypes)",
-    "leader path: extract_topics / read_partitions / leader_* of the same model file mirror extractTopics (reader.go) and ConsumerGroup.assignTopicPartitions with its per-topic fallback after UnknownTopicOrPartition (other read errors are not modelled); the real function is driven through /repo/verif_export_c14.go (coordinator seam: only readPartitions is replaced, by a fake broker in harness/cmd/c14 that journals every request, fails a request naming a topic of which the cluster lists no partition with UnknownTopicOrPartition as a whole, and otherwise returns the cluster's partitions of exactly the requested topics in cluster order — that this is how a broker behaves through Conn.ReadPartitions is trusted); the hook builds the ConsumerGroup with an empty config.Topics",
+    "leader path: extract_topics / read_partitions / leader_* of the same model file mirror extractTopics (reader.go) and ConsumerGroup.assignTopicPartitions with its per-topic fallback after UnknownTopicOrPartition (other read errors are not modelled); the real function is driven through /repo/verif_export_c14.go (coordinator seam: only readPartitions is replaced, by a fake broker in harness/cmd/c14 that journals every request, fails a request naming a topic of which the cluster lists no partition with UnknownTopicOrPartition as a whole, and otherwise returns the cluster's partitions of exactly the requested topics in cluster order — that this is how a broker behaves through Conn.ReadPartitions is trusted); the leader ops run the real joinGroup (as leader members[0], config.Topics = its topics) and syncGroup through /repo/verif_export_c14b.go and judge the SyncGroup request the coordinator receives: its raw member assignments are decoded by hand in harness/cmd/c14 (version 1, topics, int32 partitions, userdata, no trailing bytes) and must equal the model's sync_request of the assignment (exactly for range/roundrobin, per topic one of the alternatives for rack-affinity) and satisfy the same predicates as the assignment; each case runs 3..10 rounds so that Go's map iteration orders vary",
     "sort.Slice in findMembersByTopic is modelled as an insertion sort by member id; the two agree when ids are distinct (compared on every run, not verified)",
     "Go map iteration order: never used by the Range/RoundRobin model (association lists in insertion order, results canonicalised before comparison); the two 'range zonedPartitions' loops of RackAffinity.assignTopic take their iteration orders as explicit parameters of the model, and the differential accepts a Go result iff it is the model's result for SOME pair of orders (all pairs enumerated when a topic has <= 3 leader racks, <= 4 for small topics)",
     "Go slice semantics: s[:k] with k > len(s) is the model outcome None (the real code panics beyond cap and reads stale elements below it); append never aliases because every appended-to slice is owned by one map entry",
@@ -222,13 +227,39 @@ def evaluate(cases, res, st):
         leader = op in ("lrange", "lrr", "lrack")
         base = op[1:] if leader else op
         gores, req_vs, req_agree = c["go"], [], True
+        wires, mwire, marker_vs = [], None, []
         if leader:
-            gores, _, req = c["go"].partition(" req=")
-            model, _, mreq = model.partition(" req=")
+            # go: <returned> req=<journal> wire=<w1/w2/..> wirediff=<n> [own=BAD] [sync=BAD] [WIREDUPMEMBER]
+            parts = c["go"].split(" ")
+            gores = parts[0]
+            kv = dict(x.split("=", 1) if "=" in x else (x, "") for x in parts[1:])
+            req = kv.get("req", "none")
+            mparts = model.split(" ")
+            model = mparts[0]
+            mkv = dict(x.split("=", 1) for x in mparts[1:])
+            mreq, mwire = mkv.get("req"), mkv.get("wire")
             req_vs = req_violations(G, req)
             req_agree = req == mreq
+            wires = kv.get("wire", "NOWIRE").split("/")
             st["leader_cases"] += 1
+            st["wire_results"] += len(wires)
+            if len(wires) > 1:
+                st["wire_multi"] += 1
+            if kv.get("wirediff", "?") != "0":
+                marker_vs.append(("wire", f"in {kv.get('wirediff')} round(s) the SyncGroup request the coordinator received differs from the assignment AssignGroups returned"))
+            if "own" in kv:
+                marker_vs.append(("wire", "the leader's own assignment decoded from the SyncGroup response is not its entry of the request"))
+            if "sync" in kv:
+                marker_vs.append(("wire", "SyncGroup request carries the wrong member id or generation"))
+            if "WIREDUPMEMBER" in kv:
+                marker_vs.append(("wire", "a member id occurs twice in the SyncGroup request"))
+            for W in wires:
+                if W.startswith("WIREERR") or (W == "NOWIRE" and not gores.startswith(("ERR:", "PANIC"))):
+                    marker_vs.append(("wire", f"SyncGroup request: {W}"))
             fs = c["feats"].split(",")
+            for f in fs:
+                if f.startswith("rounds="):
+                    st["wire_rounds"] += int(f[7:])
             for tg, k in (("new-after-seen", "leader_new_after_seen"), ("fallback", "leader_fallback"),
                           ("fallback-beyond-leader", "leader_fallback_beyond_leader")):
                 if tg in fs:
@@ -242,7 +273,16 @@ def evaluate(cases, res, st):
             vs = violations(base, G, asg, go, "cluster's" if leader else "listed") + req_vs
             if perm != "perm=same":
                 vs.append(("perm", "result depends on the listing order of members/topics (same group shuffled gave another assignment)"))
-            if go != model or not req_agree:
+            wire_agree = True
+            for W in wires:
+                if W == "NOWIRE" or W.startswith("WIREERR"):
+                    continue
+                vs += [("wire-" + k, "SyncGroup request as received by the coordinator: " + t)
+                       for k, t in violations(base, G, parse_assign(W), W, "cluster's")]
+                if W != mwire:
+                    wire_agree = False
+            vs += marker_vs
+            if go != model or not req_agree or not wire_agree:
                 reported = True
                 if vs:
                     fail(c, "property", vs[0][0], vs[0][1], model)
@@ -283,6 +323,28 @@ def evaluate(cases, res, st):
                     fail(c, "correspondence", "diff", "code's result is not the model's result for any zone iteration order, "
                          "but the output satisfies the property", model, False)
                     break
+            else:
+                # what the coordinator received (leader ops): every distinct wire result
+                for W in wires:
+                    if W == "NOWIRE" or W.startswith("WIREERR"):
+                        continue
+                    wasg = parse_assign(W)
+                    vs = [("wire-" + k, "SyncGroup request as received by the coordinator: " + t)
+                          for k, t in violations(base, G, wasg, W, "cluster's")]
+                    if vs:
+                        fail(c, "property", vs[0][0], vs[0][1] + f" (wire {W[:200]})", model)
+                        break
+                    agree = all(t in alts for tm in wasg.values() for t in tm)
+                    for t, (enum, a) in alts.items():
+                        if enum and project(wasg, t) not in a:
+                            agree = False
+                    if not agree:
+                        fail(c, "correspondence", "diff", "the SyncGroup request is not the model's result for any zone iteration "
+                             "order, but it satisfies the property", model, False)
+                        break
+                else:
+                    if marker_vs:
+                        fail(c, "property", marker_vs[0][0], marker_vs[0][1], model)
             if model_panics and "PANIC" not in runs:
                 # the model says some iteration order panics: a refutation candidate even if Go did not hit it
                 fail(c, "property", "panic", "model: RackAffinity panics for some map iteration order (not hit by the 8 real runs)", model)
@@ -304,7 +366,7 @@ def new_state():
     return dict(failures=[], nfail=0, evaluations=0, hist={}, seen=set(), exhaustive_cases=0, outside_hypothesis=0,
                 rack_topics_enum=0, rack_topics_noenum=0, rack_topics_multi_alt=0, rack_alts_max=0,
                 rack_go_multi=0, rack_go_results=0, rack_model_panic=0, leader_cases=0, leader_new_after_seen=0, leader_fallback=0,
-                leader_fallback_beyond_leader=0)
+                leader_fallback_beyond_leader=0, wire_rounds=0, wire_results=0, wire_multi=0)
 
 
 def _work(job):
@@ -408,7 +470,8 @@ def correspondence(ctx):
         notes.append(f"{st['outside_hypothesis']} corpus cases skipped: duplicate member ids or topics (outside C14's hypotheses)")
     extra = {k: st[k] for k in ("exhaustive_cases", "rack_topics_enum", "rack_topics_noenum", "rack_topics_multi_alt",
                                 "rack_alts_max", "rack_go_results", "rack_go_multi", "rack_model_panic",
-                                "leader_cases", "leader_new_after_seen", "leader_fallback", "leader_fallback_beyond_leader")}
+                                "leader_cases", "leader_new_after_seen", "leader_fallback", "leader_fallback_beyond_leader",
+                                "wire_rounds", "wire_results", "wire_multi")}
     extra["exhaustive_scope"] = (
         "range/rr: all listing orders of <=%d members (ids '', m, m1, m10) x subscriptions over 2 topics (4^M, members without topics included) "
         "x 0..%d / 0..%d partitions of the two topics; rack one topic: %s; rack two topics (each member a non-empty subset): %s"
@@ -428,6 +491,7 @@ def correspondence(ctx):
                      "partitions per topic with contiguous, permuted or sparse ids, topics interleaved, orphan topics, 1..5 racks incl. the empty "
                      "rack, racks without members / without leaders; the same groups (more topics, mostly heterogeneous overlapping subscriptions in "
                      "shuffled order, topics missing from / extra in the cluster) through the leader path assignTopicPartitions against a fake broker "
+                     "(3 to 10 rounds each, the SyncGroup request decoded from its raw bytes and judged like the returned assignment) "
                      "that fails requests naming a topic it lacks (about 40% of the random leader cases have a subscribed topic missing, in every position of the "
                      "sorted request; also the only topic missing, all missing); plus the small-scope enumeration (extra.exhaustive_scope). Each case runs the "
                      "real AssignGroups (range/rr also on shuffled listings, rack 8 times), is compared with the extracted model (exact for "
@@ -467,7 +531,7 @@ def replay(ctx, payload):
     gobin = L.go_build("c14")
     model = L.ocaml_build("c14")
     op_args = case.split(" ", 1)[1]
-    rc, out, err, _ = L.sh([gobin, "-seed", str(ctx.seed), "-rackruns", "500", "-case", op_args], timeout=600)
+    rc, out, err, _ = L.sh([gobin, "-seed", str(ctx.seed), "-rackruns", "500", "-wirerounds", "300", "-case", op_args], timeout=600)
     if rc != 0:
         print("harness failed:", err[-2000:])
         return 1
